@@ -15,7 +15,7 @@ ev = "/var/tmp/ref_ev"
 rows = []
 for d in sorted(glob.glob(os.path.join(src, "C*", "out", "r*.diff"))):
     pid = d.split("/")[-3]
-    name = "b_ref_%s_%s" % (pid, os.path.basename(d)[:-5])
+    name = "%s_%s_%s" % (os.environ.get("BENIGN_PREFIX", "b_ref"), pid, os.path.basename(d)[:-5])
     if only and only not in name:
         continue
     shutil.rmtree(wt, ignore_errors=True)
